@@ -5,7 +5,7 @@
 (* chooses among the alternatives:                                         *)
 (*   q      quote character for names and string literals (39 or 34)       *)
 (*   sp     the blank-space text inserted wherever the grammar permits it  *)
-(*   dot    use dot shorthand (.name .* ..name ..*) where the grammar does *)
+(*   dot    use dot shorthand for names and wildcards where the grammar does *)
 (*   paren  "min" (by precedence) | "full" (redundant parentheses)         *)
 (*   uni    escape non-ASCII and control characters as \uXXXX              *)
 (*   num    "plain" | "float" (1 -> 1.0) | "exp" (1 -> 1e0) number literals*)
